@@ -4,7 +4,7 @@ prop=$1; patch=$2
 cd /repo || exit 2
 if [ -n "$(git status --porcelain --untracked-files=no)" ]; then echo "repo dirty" >&2; exit 2; fi
 git apply "$patch" || { echo "patch does not apply" >&2; exit 3; }
-cd /verif && ./check "$prop" --tier quick > /tmp/seedtest.out 2>&1; rc=$?
+cd /verif && GOVC_EVIDENCE_DIR=/verif/out/evidence_seed ./check "$prop" --tier quick > /tmp/seedtest.out 2>&1; rc=$?
 git -C /repo checkout -- .
 grep -E "^(VIOLATION|KNOWN)" /tmp/seedtest.out | cut -c1-330
 tail -1 /tmp/seedtest.out | cut -c1-200
